@@ -91,11 +91,15 @@ var (
 	hookRng    = mon.NewRng(mon.Seed(), 77, 0)
 	hookOn     int32
 	lastOutage int64 // unix nano of the last endpoint Down()
+	lastGetAll int64 // unix nano of the last time a connection's keep-safe buffer was about to be collected
 	hookFired  = map[string]int{}
 	hookSlept  = map[string]int{}
 )
 
 func hook(p string) {
+	if p == "getredo-before-getall" {
+		atomic.StoreInt64(&lastGetAll, time.Now().UnixNano())
+	}
 	hookMu.Lock()
 	hookFired[p]++
 	if atomic.LoadInt32(&hookOn) == 0 {
@@ -155,6 +159,13 @@ func runCase(res *mon.Result, c ccase, dir string) {
 	dest, _ := rt.GetDestination(0)
 	dkey := mon.DestKey(key, ep.Addr)
 	d := mon.NewDeltas(mon.KeyDestDropSlowConn(dkey), mon.KeyDestDropSlowSpool(dkey), mon.KeyDestDropNoConn(dkey))
+	lag := startLag()
+	lagStopped := false
+	defer func() {
+		if !lagStopped {
+			lag.Stop()
+		}
+	}()
 	if c.HookDelay {
 		atomic.StoreInt32(&hookOn, 1)
 	} else {
@@ -279,6 +290,11 @@ func runCase(res *mon.Result, c ccase, dir string) {
 		if !drained && dest.VerifSpoolBacklog() > 0 {
 			sig = "backlog-not-draining"
 		}
+		lagStopped = true
+		if worst := lag.Stop(); sig == "lost-uncounted" && worst > maxLag {
+			res.Inconclusive(fmt.Sprintf("case %d: %d lines never received with drops %d, but goroutines of this process were not scheduled for up to %v (keep-safe period shortened to %v): not a verdict", c.Index, missing, slowConn+slowSpool, worst, keepPeriod))
+			return
+		}
 		res.Violate(sig, fmt.Sprintf("schedule %s: handed %d, %d never received by any incarnation, but slow_conn+slow_spool drops are only %d (backlog at end %d)", c.Schedule, handed, missing, slowConn+slowSpool, dest.VerifSpoolBacklog()), w)
 	} else if noConn != 0 {
 		res.Violate("conn-down-drop-with-spool", fmt.Sprintf("spooling is on but conn_down_no_spool moved by %d", noConn), w)
@@ -291,6 +307,194 @@ func runCase(res *mon.Result, c ccase, dir string) {
 	case <-done:
 	case <-time.After(20 * time.Second):
 		res.Inconclusive(fmt.Sprintf("case %d: route shutdown did not return within 20s", c.Index))
+	}
+}
+
+// ---- scheduling lag ------------------------------------------------------------
+//
+// The keep-safe buffer's guarantee is time based ("at least the last period's worth of data"), and this check
+// shortens the period from 10s to keepPeriod so that rotations happen inside its scenarios. A line can only be
+// lost legitimately if it stays unflushed / unread for longer than a period, i.e. if goroutines of this process
+// are not scheduled for that long. lagMonitor measures exactly that (a 5ms sleeper recording its worst
+// oversleep); a loss seen in a case whose worst lag exceeds maxLag is reported as inconclusive.
+const keepPeriod = 2 * time.Second
+const maxLag = 400 * time.Millisecond
+
+var rotDecided int
+
+type lagMonitor struct {
+	stop chan struct{}
+	done chan struct{}
+	max  int64
+}
+
+func startLag() *lagMonitor {
+	l := &lagMonitor{stop: make(chan struct{}), done: make(chan struct{})}
+	go func() {
+		defer close(l.done)
+		for {
+			select {
+			case <-l.stop:
+				return
+			default:
+			}
+			t0 := time.Now()
+			time.Sleep(5 * time.Millisecond)
+			if over := int64(time.Since(t0) - 5*time.Millisecond); over > atomic.LoadInt64(&l.max) {
+				atomic.StoreInt64(&l.max, over)
+			}
+		}
+	}()
+	return l
+}
+
+func (l *lagMonitor) Stop() time.Duration {
+	close(l.stop)
+	<-l.done
+	return time.Duration(atomic.LoadInt64(&l.max))
+}
+
+// rotationCase (added after seeded change C07-w2-1): the lines in flight when the outage is detected straddle a
+// rotation of the connection's keep-safe generations. The endpoint stops reading shortly before the first
+// rotation tick of the connection, batch A is handed off, the tick passes, batch B is handed off, and the
+// endpoint resets the connection: nothing of A or B was received, all of it is younger than one period, all of
+// it must be replayed to the next incarnation.
+func rotationCase(res *mon.Result, idx int, dir string) {
+	r := mon.NewRng(mon.Seed(), 71, uint64(idx))
+	os.RemoveAll(dir)
+	os.MkdirAll(dir, 0755)
+	defer os.RemoveAll(dir)
+	ep := mon.NewEndpoint(mon.Mode{Abortive: true})
+	defer ep.Close()
+	t := mon.NewTable("none", "none", false, dir)
+	key := fmt.Sprintf("c07rot%ds%d", idx, mon.Seed())
+	cmd := fmt.Sprintf("addRoute sendAllMatch %s  %s spool=true flush=%d reconn=%d connbuf=%d iobuf=%d spoolbuf=1000 spoolsyncevery=1000 spoolsyncperiod=200 spoolsleep=0 unspoolsleep=0",
+		key, ep.Addr, r.PickInt([]int{5, 20}), r.PickInt([]int{50, 200}), r.PickInt([]int{1000, 30000}), r.PickInt([]int{256, 4096, 2000000}))
+	nA := r.Range(50, 600)
+	nB := r.Range(20, nA)
+	w := map[string]interface{}{"route_cmd": cmd, "keep_safe_period_ms": keepPeriod / time.Millisecond, "lines_before_rotation": nA, "lines_after_rotation": nB}
+	res.LogCase("rotationCase %d: %s A=%d B=%d", idx, cmd, nA, nB)
+	lag := startLag()
+	tUp := time.Now()
+	if err := mon.Apply(t, cmd); err != nil {
+		lag.Stop()
+		res.Violate("harness-setup", err.Error(), w)
+		return
+	}
+	rt := t.GetRoute(key)
+	dest, _ := rt.GetDestination(0)
+	dkey := mon.DestKey(key, ep.Addr)
+	d := mon.NewDeltas(mon.KeyDestDropSlowConn(dkey), mon.KeyDestDropSlowSpool(dkey), mon.KeyDestDropNoConn(dkey))
+	defer func() {
+		done := make(chan struct{})
+		go func() { t.DelRoute(key); close(done) }()
+		select {
+		case <-done:
+		case <-time.After(20 * time.Second):
+		}
+	}()
+	prefix := fmt.Sprintf("c07rot.%d.", idx)
+	online := mon.ProbeOnline(rt.Dispatch, ep, fmt.Sprintf("c07rot%d", idx), 600)
+	tOn := time.Now()
+	if !online || tOn.Sub(tUp) > 600*time.Millisecond {
+		lag.Stop()
+		res.Inconclusive(fmt.Sprintf("rotationCase %d: the destination took %v to come online; the first rotation tick cannot be bracketed", idx, tOn.Sub(tUp)))
+		return
+	}
+	// the connection (and its keep-safe ticker) was created between tUp and tOn: its first tick falls in [tUp+P, tOn+P]
+	var seq int64
+	send := func(n int) {
+		for i := 0; i < n; i++ {
+			id := atomic.AddInt64(&seq, 1)
+			rt.Dispatch([]byte(fmt.Sprintf("%sm%d %d %d", prefix, id, id, 1600000000+id%50000)))
+		}
+	}
+	time.Sleep(time.Until(tUp.Add(keepPeriod - 400*time.Millisecond)))
+	ep.SetMode(mon.Mode{Abortive: true, NoRead: true})
+	time.Sleep(40 * time.Millisecond) // the reader looks at the mode every 20ms at most
+	before := 0
+	for _, c := range ep.Conns() {
+		before += c.Len()
+	}
+	send(nA)
+	time.Sleep(time.Until(tOn.Add(keepPeriod + 150*time.Millisecond)))
+	send(nB)
+	time.Sleep(time.Duration(r.Range(0, 30)) * time.Millisecond)
+	atomic.StoreInt64(&lastOutage, time.Now().UnixNano())
+	atomic.StoreInt64(&lastGetAll, 0)
+	tKill := time.Now()
+	ep.CloseConns() // RST; keeps listening
+	ep.SetMode(mon.Mode{Abortive: true})
+	// the destination looks at the state of its connection when it handles its next event: keep a trickle going
+	for i := 0; i < 20; i++ {
+		send(1)
+		time.Sleep(10 * time.Millisecond)
+	}
+	handed := int(atomic.LoadInt64(&seq))
+	col := newCollector(prefix)
+	var recvSet map[string]bool
+	var malformed string
+	stable, lastRecv := 0, -1
+	for steps := 0; steps < 3000; steps++ {
+		if steps%5 == 0 {
+			done := make(chan struct{})
+			go func() { dest.Flush(); close(done) }()
+			select {
+			case <-done:
+			case <-time.After(3 * time.Second):
+			}
+		}
+		recvSet, malformed = col.collect(ep)
+		if len(recvSet) >= handed {
+			break
+		}
+		if len(recvSet) == lastRecv && dest.VerifSpoolBacklog() == 0 {
+			stable++
+		} else {
+			stable = 0
+		}
+		lastRecv = len(recvSet)
+		if stable >= 300 {
+			break
+		}
+		time.Sleep(10 * time.Millisecond)
+	}
+	worst := lag.Stop()
+	collected := atomic.LoadInt64(&lastGetAll)
+	slow := d.Get(mon.KeyDestDropSlowConn(dkey)) + d.Get(mon.KeyDestDropSlowSpool(dkey))
+	missing := handed - len(recvSet)
+	// how much of A and B the first incarnation received although it had stopped reading (should be nothing)
+	firstGot := 0
+	if cs := ep.Conns(); len(cs) > 0 {
+		firstGot = cs[0].Len() - before
+	}
+	w["handed"], w["distinct_received_by_later_incarnations"], w["slow_drops"], w["worst_scheduling_lag_ms"], w["first_incarnation_read_bytes_after_it_stopped_reading"] = handed, len(recvSet), slow, worst/time.Millisecond, firstGot
+	res.Count("rotation_cases", 1)
+	res.Count("rotation_lines_in_flight", handed)
+	switch {
+	case malformed != "":
+		w["line"] = malformed
+		res.Violate("torn-or-foreign-line", "an incarnation received a complete line that was never handed off: "+malformed, w)
+	case int64(missing) > slow:
+		var miss []string
+		for id := 1; id <= handed && len(miss) < 10; id++ {
+			if !recvSet[fmt.Sprintf("m%d", id)] {
+				miss = append(miss, fmt.Sprintf("m%d", id))
+			}
+		}
+		w["first_missing_ids"] = miss
+		msg := fmt.Sprintf("in-flight lines straddling a keep-safe rotation: %d lines handed off before and %d after the connection's first rotation tick, none read by the endpoint, connection reset %v after the first of them: %d were never replayed, slow drops %d", nA, nB, tKill.Sub(tUp.Add(keepPeriod-400*time.Millisecond)).Round(time.Millisecond), missing, slow)
+		if worst > maxLag || collected == 0 || time.Unix(0, collected).After(tUp.Add(2*keepPeriod-200*time.Millisecond)) {
+			res.Inconclusive(fmt.Sprintf("rotationCase %d: %s - but worst scheduling lag was %v and the redo was collected %v after the route was created (period %v): the time-based retention cannot be assumed", idx, msg, worst, time.Unix(0, collected).Sub(tUp), keepPeriod))
+			return
+		}
+		rotDecided++
+		res.Violate("lost-uncounted-across-rotation", msg, w)
+	case d.Get(mon.KeyDestDropNoConn(dkey)) != 0:
+		res.Violate("conn-down-drop-with-spool", fmt.Sprintf("spooling is on but conn_down_no_spool moved by %d", d.Get(mon.KeyDestDropNoConn(dkey))), w)
+	default:
+		rotDecided++
+		res.NonTrivial(fmt.Sprintf("rotation/%d/%d/%d", idx, nA, nB))
 	}
 }
 
@@ -349,10 +553,12 @@ func (cl *collector) collect(ep *mon.Endpoint) (map[string]bool, string) {
 
 func main() {
 	res := mon.NewResult("C07")
-	res.Rule = "up/down schedules {DU, UDU, UDUDU, DDU, UDuDU (outage during unspooling), UDUU, DUDU, UDDU} x graceful/abortive close x generated reconn/flush/connbuf/iobuf/spoolbuf/syncevery/spoolsleep/unspoolsleep, traffic running across every transition, seeded 0-3ms delays at the destination hook points (4 of 5 cases); non-trivial = at least one outage happened mid-traffic and more than a quarter of the lines were received; distinct = (schedule, close kind, tuning values)"
+	res.Rule = "up/down schedules {DU, UDU, UDUDU, DDU, UDuDU (outage during unspooling), UDUU, DUDU, UDDU} x graceful/abortive close x generated reconn/flush/connbuf/iobuf/spoolbuf/syncevery/spoolsleep/unspoolsleep, traffic running across every transition, seeded 0-3ms delays at the destination hook points (4 of 5 cases); non-trivial = at least one outage happened mid-traffic and more than a quarter of the lines were received; distinct = (schedule, close kind, tuning values); plus rotation cases: the endpoint stops reading before the connection's first keep-safe rotation tick, lines are handed off before and after the tick, then the connection is reset"
 	res.Assume("duplicates are legal (at-least-once); order is not checked; loopback endpoints detect outages immediately, so the >2x keep-safe-period outage is not reproduced")
+	res.Assume("the keep-safe period is shortened from 10s to 2s (overlay accessor, set once before any destination exists) so that generation rotations happen inside the scenarios; a loss is a verdict only if no goroutine of the process was starved for more than 400ms during the case (5ms sleeper), otherwise inconclusive")
 	res.Assume("drained = spool backlog (disk queue depth + spool buffers, read through an overlay accessor) is 0 and nothing is owed, or nothing moved for 500 consecutive 10ms steps")
 	destination.VerifPoint = hook
+	destination.VerifSetKeepSafePeriod(keepPeriod)
 	n := mon.N(16, 600)
 	ran := 0
 	base := mon.Scratch()
@@ -371,6 +577,22 @@ func main() {
 		ran++
 		runCase(res, c, filepath.Join(base, fmt.Sprintf("spool%d", i)))
 		res.Eval(1)
+	}
+	nrot := mon.N(8, 160)
+	rotMine := 0
+	for i := 0; i < nrot; i++ {
+		if !mon.Mine(i) {
+			continue
+		}
+		if o := os.Getenv("VERIF_ONLY"); o != "" && o != fmt.Sprintf("rot%d", i) {
+			continue
+		}
+		rotationCase(res, i, filepath.Join(base, fmt.Sprintf("rot%d", i)))
+		res.Eval(1)
+		rotMine++
+	}
+	if os.Getenv("VERIF_ONLY") == "" {
+		res.Floor("rotation_cases_decided", rotDecided, rotMine/4)
 	}
 	hookMu.Lock()
 	res.Set("hook_points_fired", hookFired)
